@@ -616,6 +616,11 @@ func listPlans(c *engine.Ctx, prop string) []listPlan {
 			plans = append(plans, listPlan{cfg: drv.Config{Kind: k}, u: u, depth: depth})
 		}
 	}
+	// upper/lower case of the same letter: byte order is not case-folded order
+	uc := newListUniverse("Aa/", 3, 3, "a", 7)
+	for _, k := range []drv.Kind{drv.Mem, drv.Bolt, drv.MultiMem} {
+		plans = append(plans, listPlan{cfg: drv.Config{Kind: k}, u: uc, depth: depth - 1})
+	}
 	// versioned variant (delete-marked keys): version stacks grow with depth, so a smaller universe
 	plans = append(plans, listPlan{cfg: drv.Config{Kind: drv.Mem}, u: newListUniverse("ab/", 3, 3, "a", 6), versioned: true, depth: depth - 1})
 	if prop == "C04" {
